@@ -64,11 +64,16 @@ def obs_of(row):
     return last["ev"]
 
 
+def argstr(a):
+    """one token per parameter; a parameter that is itself a list (property-file lines) is joined with '+'"""
+    return "+".join(str(x) for x in a) if isinstance(a, list) else str(a)
+
+
 def signature(row, inv):
     if row["k"] == "fuzz":
         return "fuzz format=%s mode=%s obs=%s inv=%s" % (row["format"], row["mode"], obs_of(row), inv)
     c = row["c"]
-    arg = (" arg=" + ",".join(str(a) for a in c["arg"])) if c.get("arg") else ""
+    arg = (" arg=" + ",".join(argstr(a) for a in c["arg"])) if c.get("arg") else ""
     return "case kind=%s format=%s mode=%s cls=%s%s obs=%s inv=%s" % (c["kind"], c["format"], c["mode"], c["cls"], arg, obs_of(row), inv)
 
 
@@ -107,7 +112,8 @@ def validate(v, trace_path, timeout=900):
             raise vlib.MachineryError("driver echoed a case the specification does not enumerate: %r" % (row.get("c"),))
         bad += 1
         name = "case_%s_%s_%s%s_%s_%d_%d.json" % (row["c"]["format"], row["c"]["mode"], row["c"]["cls"],
-                                                  "".join("-" + str(a) for a in row["c"].get("arg", [])), inv, row["c"]["np"], row["c"]["nt"]) \
+                                                  re.sub(r"[^A-Za-z0-9_.+-]", "_", "".join("-" + argstr(a) for a in row["c"].get("arg", [])))[:120],
+                                                  inv, row["c"]["np"], row["c"]["nt"]) \
             if row["k"] == "case" else "fuzz_%s_%s_%s.json" % (row["format"], row["mode"], row.get("seed"))
         v.violation(signature(row, inv), describe(row, inv), replay_obj={"invariant": inv, "row": row}, replay_name=name)
     if tr.violation and not seen:
